@@ -150,6 +150,113 @@ def scope_mutators():
     return fields, out
 
 
+# methods of Scope / ScopeRef that (transitively) write to a scope
+MUTATING_METHODS = ["define_module", "set_variable", "define_global", "restore_local_values", "define_mixin", "define_function",
+                    "forward", "define_content", "define", "define_multi", "do_use", "expose_star"]
+
+
+def _test_mask(toks):
+    n = len(toks)
+    mask = [False] * n
+    i = 0
+    while i < n:
+        if toks[i].text == "#" and i + 1 < n and toks[i + 1].text == "[":
+            j = match_close(toks, i + 1)
+            inner = [x.text for x in toks[i + 2:j]]
+            if "test" in inner and "not" not in inner:
+                k = j + 1
+                while k < n and toks[k].text == "#":
+                    k = match_close(toks, k + 1) + 1
+                m = k
+                while m < n:
+                    if toks[m].text in ("(", "["):
+                        m = match_close(toks, m) + 1
+                        continue
+                    if toks[m].text == "{":
+                        m = match_close(toks, m)
+                        break
+                    if toks[m].text == ";":
+                        break
+                    m += 1
+                for x in range(i, min(m + 1, n)):
+                    mask[x] = True
+                i = m + 1
+                continue
+            i = j + 1
+            continue
+        i += 1
+    return mask
+
+
+def _receiver(toks, dot):
+    """text of the receiver expression ending just before toks[dot] == '.'"""
+    j = dot - 1
+    while j >= 0:
+        tk = toks[j]
+        if tk.text in (")", "]"):
+            depth = 0
+            while j >= 0:
+                if toks[j].text in (")", "]"):
+                    depth += 1
+                elif toks[j].text in ("(", "["):
+                    depth -= 1
+                    if depth == 0:
+                        break
+                j -= 1
+            j -= 1
+            continue
+        if tk.kind == "ident" or tk.text in (".", "::", "?"):
+            j -= 1
+            continue
+        break
+    return text_of(toks, j + 1, dot)
+
+
+def call_sites():
+    """every call `.m(` of a mutating Scope method, every `get_global_module(` call and every construction of
+    ScopeRef::Builtin in non-test code: (file, enclosing fn, what, receiver / context)"""
+    out = []
+    for rel in _files():
+        if rel.endswith("testutil.rs"):
+            continue
+        toks = toks_of(rel)
+        mask = _test_mask(toks)
+        n = len(toks)
+        fn_of = [""] * n
+        for i in range(n):
+            if toks[i].text == "fn" and i + 1 < n and toks[i + 1].kind == "ident":
+                b = block_after(toks, i)
+                if b:
+                    for x in range(b[0], b[1] + 1):
+                        fn_of[x] = toks[i + 1].text
+        short = rel[len("rsass/src/"):]
+        for i in range(n):
+            if mask[i]:
+                continue
+            tk = toks[i]
+            if tk.text == "." and i + 2 < n and toks[i + 1].text in MUTATING_METHODS and toks[i + 2].text == "(":
+                out.append((short, fn_of[i], toks[i + 1].text, _receiver(toks, i)))
+            elif tk.text == "get_global_module" and i + 1 < n and toks[i + 1].text == "(" and toks[i - 1].text != "fn":
+                out.append((short, fn_of[i], "get_global_module", ""))
+            elif tk.text == "Builtin" and i >= 2 and toks[i - 1].text == "::" and toks[i - 2].text in ("ScopeRef", "Self") \
+                    and short == "variablescope.rs" or (tk.text == "Builtin" and i >= 2 and toks[i - 1].text == "::" and toks[i - 2].text == "ScopeRef"):
+                ctx = "pattern" if (i + 1 < n and toks[i + 1].text == "(" and toks[match_close(toks, i + 1) + 1].text in ("=>", ",", ")")) else "value"
+                out.append((short, fn_of[i], "ScopeRef::Builtin", ctx))
+    # closure: a Scope / ScopeRef method that calls a mutating method on self must itself be listed
+    vt = toks_of("rsass/src/variablescope.rs")
+    for i in range(len(vt)):
+        if vt[i].text == "fn" and vt[i + 1].kind == "ident":
+            b = block_after(vt, i)
+            if not b:
+                continue
+            name = vt[i + 1].text
+            for k in range(b[0], b[1] - 3):
+                if vt[k].text == "self" and vt[k + 1].text == "." and vt[k + 2].text in MUTATING_METHODS and vt[k + 3].text == "(":
+                    need(name in MUTATING_METHODS or name in ("with_forwarded", "expose", "eval_body", "builtin_module", "do_evaluate", "do_evaluate_or_error"),
+                         f"Scope method {name} calls self.{vt[k + 2].text}() but is not in the list of mutating methods")
+    return out
+
+
 def generate():
     items = extract()
     need(items, "no process-global state found at all (scanner broken?)")
@@ -162,4 +269,14 @@ def generate():
     body += ("\n(* methods of `impl Scope` that write to an interior-mutable field: (method, how, fields, mentions ModifiedBuiltin) *)\n"
              "Definition scope_mutators : list (string * (string * (string * bool))) :=\n  [" +
              ";\n   ".join(f"({qs(n)}, ({qs(k)}, ({qs(tch)}, {'true' if g else 'false'})))" for n, k, tch, g in muts) + "].\n")
+    cs = call_sites()
+    counts = {}
+    rows = []
+    for c in cs:
+        counts[c] = counts.get(c, 0) + 1
+        rows.append(c + (counts[c],))
+    body += ("\n(* every call of a (transitively) mutating Scope method, every get_global_module call and every mention of\n"
+             "   ScopeRef::Builtin in non-test code: (file, enclosing fn, method, receiver text / context, ordinal) *)\n"
+             "Definition scope_call_sites : list (string * (string * (string * (string * nat)))) :=\n  [" +
+             ";\n   ".join(f"({qs(a)}, ({qs(b)}, ({qs(c)}, ({qs(d)}, {k}))))" for a, b, c, d, k in rows) + "].\n")
     return emit("Statics", "rsass/src/**/*.rs", body)
